@@ -25,7 +25,7 @@ for f in ('patch.diff', 'demo.rs', 'notes.md'):
 base = sh('git -C /repo rev-parse --short HEAD').strip()
 json.dump(dict(property=prop, needs=needs, caught_by='; '.join(caught) if caught else 'MISSED', missed_by=missed,
                confirmed='vlib/confirm_mut.sh in the scratch worktree: existing suite %s+1 pass with change; demo (tests/mutation_demo.rs) fails with change, passes without' % m.group(1),
-               ran='vlib/mutlab.sh try seeded/%s/patch.diff %s' % (name, ' '.join(checks)), base_commit=base, round=2),
+               ran='vlib/mutlab.sh try seeded/%s/patch.diff %s' % (name, ' '.join(checks)), base_commit=base, round=int(re.search(r'-r(\d+)$', name).group(1)) if re.search(r'-r(\d+)$', name) else 1),
           open(os.path.join(d, 'meta.json'), 'w'), indent=1)
 if '--keep-wt' not in sys.argv:
     sh('git -C /repo worktree remove --force %s' % wt)
